@@ -287,7 +287,7 @@ func corpusFiles() []string {
 
 func TestPaddingCorpus(t *testing.T) {
 	files := corpusFiles()
-	vt.Check(t, vt.N(1200, 40000), func(rt *rapid.T) {
+	vt.Check(t, vt.N(1200, 80000), func(rt *rapid.T) {
 		f := rapid.SampledFrom(files).Draw(rt, "file")
 		b, err := os.ReadFile(f)
 		if err != nil {
@@ -415,7 +415,7 @@ func TestLongTokens(t *testing.T) {
 func TestChunkedReaders(t *testing.T) {
 	files := corpusFiles()
 	fixed := [][]int{{1}, {2}, {3}, {7}, {100}, {1023}, {1024}, {2047}, {2048}, {4096}, {1, 2047}, {2048, 1}, {5, 0, 3}}
-	vt.Check(t, vt.N(2500, 60000), func(rt *rapid.T) {
+	vt.Check(t, vt.N(2500, 120000), func(rt *rapid.T) {
 		var src string
 		if rapid.IntRange(0, 2).Draw(rt, "source") == 0 {
 			tpl := rapid.SampledFrom(templates).Draw(rt, "tpl")
